@@ -9,6 +9,10 @@
                       flag  : "no" | "yes" | "free"   (must not / must / may report itself obsolete),
                       oflag : BOOLEAN  last observed obsolete flag (FALSE in the pure model),
                       warned: BOOLEAN]
+   st.hp    : Seq of heap numbers, one per item: two items with different heap numbers cannot hold a common
+              value object (a container stored under some key).  Methods that build new dicts from old ones
+              (select, rename) or merge dicts (inner/left join) hand on the value objects: same heap.  Only
+              deepcopy (and literals given to append / insert) start a new heap.  Deliberately coarse.
    An event e = [k (kind), x (receiver), o (other list or 0), a (LoDOps argument record)].        *)
 EXTENDS LoDJoin
 
@@ -23,13 +27,25 @@ SharingUnary == {"filter", "filter_out", "filter_kv", "filter_out_kv", "sort", "
 InPlace      == {"modify", "modify_if", "fill", "fill_all", "unselect"}
 Rebuilding   == {"select", "rename"}                 \* marked as editors, but build new dicts
 Editors      == InPlace \cup Rebuilding \cup {"inner", "left"}
-NonModifying == SharingUnary \cup {"sample", "append", "insert", "extend", "add", "semi", "anti", "deepcopy"}
+Readers      == {"keys", "pluck"}                    \* return a value, create no list (but count as a use of the receiver)
+(* "poke": the user assigns into the dict at position a.i of list x directly (item["b"] = v, or into a container held
+   there) - not a method of the class: no list is created, no flag moves, and only that one dict changes.  It makes
+   "a later modification of a copy is never observable through the original" a checkable step.              *)
+NonModifying == SharingUnary \cup Readers \cup {"sample", "append", "insert", "extend", "add", "semi", "anti", "deepcopy"}
+(* what a reader returns is a function of the receiver's current items alone (whatever was read or derived before) *)
+ReaderOK(st, e, ret) ==
+  LET L == [i \in DOMAIN st.lists[e.x].its |-> st.items[st.lists[e.x].its[i]]] IN
+  IF e.a.op = "keys" THEN Range(ret) = AllKeys(L) /\ Len(ret) = Cardinality(AllKeys(L))
+  ELSE Len(ret) = Len(L) /\ \A i \in DOMAIN L : ret[i] = IF Has(L[i], e.a.k) THEN L[i][e.a.k] ELSE None
 
 RECURSIVE AncVia(_, _, _)
 AncVia(st, S, useShare) ==         \* all ancestors of the lists in S along share (or deriv) edges
   LET step == S \cup UNION {IF useShare THEN st.lists[l].share ELSE st.lists[l].deriv : l \in S}
   IN  IF step = S THEN S ELSE AncVia(st, step, useShare)
 
+MaxHp(st) == IF st.hp = <<>> THEN 0 ELSE CHOOSE m \in Range(st.hp) : \A h \in Range(st.hp) : h <= m
+Unify(hp, S) == IF S = {} THEN hp ELSE LET m == CHOOSE x \in S : \A y \in S : x <= y IN [i \in DOMAIN hp |-> IF hp[i] \in S THEN m ELSE hp[i]]
+HpOf(st, l) == {st.hp[st.lists[l].its[i]] : i \in DOMAIN st.lists[l].its}
 NewList(its, share, deriv) == [its |-> its, share |-> share, deriv |-> deriv, flag |-> "no", oflag |-> FALSE, warned |-> FALSE]
 Fresh(st, n) == [i \in 1..n |-> Len(st.items) + i]
 
@@ -51,38 +67,42 @@ RightOf(st, e) == IF Renamed(e) THEN [i \in DOMAIN Plain(st, e.o) |-> RenameItem
 Step(st, e) ==
   LET x == e.x  op == e.a.op  L == Mat(st, x) IN
   IF op \in SharingUnary THEN
-       [items |-> st.items,
+       [items |-> st.items, hp |-> st.hp,
         lists |-> Append(st.lists, NewList(Ids(Apply(L, e.a)), {x}, {x}))]
   ELSE IF op \in {"append", "insert"} THEN
        LET nid == Len(st.items) + 1
            out == Apply(L, [e.a EXCEPT !.item = Put(e.a.item, IdKey, nid)]) IN
-       [items |-> Append(st.items, e.a.item),
+       [items |-> Append(st.items, e.a.item), hp |-> Append(st.hp, MaxHp(st) + 1),
         lists |-> Append(st.lists, NewList(Ids(out), {x}, {x}))]
   ELSE IF op \in {"extend", "add"} THEN
-       [items |-> st.items,
+       [items |-> st.items, hp |-> st.hp,
         lists |-> Append(st.lists, NewList(st.lists[x].its \o st.lists[e.o].its, {x, e.o}, {x, e.o}))]
   ELSE IF op \in {"semi", "anti"} THEN
        LET R == RightOf(st, e)
            P(it) == IF op = "semi" THEN FirstMatch(it, R, <<"a">>) # 0 ELSE FirstMatch(it, R, <<"a">>) = 0 IN
-       [items |-> st.items,
+       [items |-> st.items, hp |-> st.hp,
         lists |-> Append(st.lists, NewList(Ids(SelSeq(L, P)), {x}, {x, e.o}))]
   ELSE IF op = "deepcopy" THEN
-       [items |-> st.items \o Plain(st, x),
+       [items |-> st.items \o Plain(st, x), hp |-> st.hp \o [i \in DOMAIN L |-> MaxHp(st) + 1],
         lists |-> Append(st.lists, NewList(Fresh(st, Len(L)), {}, {x}))]
   ELSE IF op \in InPlace THEN
        LET out == Apply(L, e.a)
            new(id) == NoId(out[CHOOSE i \in DOMAIN out : out[i][IdKey] = id]) IN
-       [items |-> [id \in DOMAIN st.items |-> IF id \in Range(st.lists[x].its) THEN new(id) ELSE st.items[id]],
+       [items |-> [id \in DOMAIN st.items |-> IF id \in Range(st.lists[x].its) THEN new(id) ELSE st.items[id]], hp |-> st.hp,
         lists |-> Append(Flagged(st, x), NewList(st.lists[x].its, {x}, {x}))]
   ELSE IF op \in Rebuilding THEN
        LET out == Apply(Plain(st, x), e.a) IN
-       [items |-> st.items \o out,
+       [items |-> st.items \o out, hp |-> st.hp \o [i \in DOMAIN out |-> st.hp[st.lists[x].its[i]]],
         lists |-> Append(Flagged(st, x), NewList(Fresh(st, Len(out)), {}, {x}))]
+  ELSE IF op = "poke" THEN
+       LET id == st.lists[x].its[e.a.i + 1] IN
+       [items |-> [st.items EXCEPT ![id] = Put(@, "b", e.a.v)], hp |-> st.hp, lists |-> st.lists]
   ELSE IF op \in {"inner", "left"} THEN
        LET R == RightOf(st, e)
            keep == IF op = "left" THEN L ELSE LET P(it) == FirstMatch(it, R, <<"a">>) # 0 IN SelSeq(L, P)
            new(id) == NoId(Merged(Put(st.items[id], IdKey, id), R, <<"a">>)) IN
        [items |-> [id \in DOMAIN st.items |-> IF id \in Range(Ids(keep)) THEN new(id) ELSE st.items[id]],
+        hp |-> Unify(st.hp, HpOf(st, x) \cup HpOf(st, e.o)),       \* merged dicts take the right items' value objects
         lists |-> Append(Flagged(st, x), NewList(Ids(keep), {x}, {x, e.o}))]
   ELSE st
 
@@ -97,8 +117,9 @@ EventOK(st, e) ==
   /\ (e.a.op \in {"inner", "left"} =>      \* non-key fields present on both sides: free point, not generated
          \A i \in DOMAIN Plain(st, e.x), m \in DOMAIN RightOf(st, e) :
             (DOMAIN Plain(st, e.x)[i] \cap DOMAIN RightOf(st, e)[m]) \subseteq {"a"})
-  /\ (e.a.op \notin {"extend", "add", "semi", "anti", "inner", "left", "deepcopy", "sample"} => Supported(Plain(st, e.x), e.a))
+  /\ (e.a.op \notin {"extend", "add", "semi", "anti", "inner", "left", "deepcopy", "sample", "poke"} \cup Readers => Supported(Plain(st, e.x), e.a))
   /\ (e.a.op = "unique" => e.a.keys # <<>>)
+  /\ (e.a.op = "poke" => e.a.i + 1 \in DOMAIN st.lists[e.x].its)
 
 (* ---------------- invariants of the model ---------------- *)
 ListsWF(st) == \A l \in DOMAIN st.lists : Range(st.lists[l].its) \subseteq DOMAIN st.items
@@ -115,7 +136,11 @@ SharingConfined(st) ==
 DerivAcyclic(st) == \A l \in DOMAIN st.lists : \A p \in st.lists[l].deriv : p < l
 ShareInDeriv(st) == \A l \in DOMAIN st.lists : st.lists[l].share \subseteq st.lists[l].deriv
 NewestNotObsolete(st) == st.lists = <<>> \/ st.lists[Len(st.lists)].flag = "no"
-ModelInv(st) == ListsWF(st) /\ SharingConfined(st) /\ DerivAcyclic(st) /\ ShareInDeriv(st) /\ NewestNotObsolete(st)
+HeapWF(st) == Len(st.hp) = Len(st.items)
+(* a deep copy shares no value object with anything that existed before it *)
+DeepcopyIsolated(st, e) ==
+  e.a.op = "deepcopy" => \A i \in (Len(st.items) + 1)..Len(Step(st, e).items) : Step(st, e).hp[i] \notin Range(st.hp)
+ModelInv(st) == HeapWF(st) /\ ListsWF(st) /\ SharingConfined(st) /\ DerivAcyclic(st) /\ ShareInDeriv(st) /\ NewestNotObsolete(st)
 
 (* action properties *)
 NonModifyingLeavesItems(st, e) ==
